@@ -2133,6 +2133,10 @@ func (m *Machine) processQueue() Result {
 	for _, ch := range m.subs.ProcessWhenQueueEnds() {
 		closeSafe(ch)
 	}
+	// queue ticks of canceled mutations are not covered by processSubscriptions
+	for _, ch := range m.subs.ProcessWhenQueue(m.queueTick) {
+		closeSafe(ch)
+	}
 	m.queueMx.Unlock()
 
 	// a mutation queued after the loop's last length check, but before
